@@ -501,6 +501,7 @@ func (w *mdWorker) run(bi int, beh []map[string]any, delay time.Duration) (o mdO
 	}
 
 	tickUniform := true
+	tickJudge := false // a tick compared positions: judge once its asynchronous ends ran
 	for si := 1; si < len(beh); si++ {
 		st := beh[si]
 		step := vh.Map(st["step"])
@@ -624,6 +625,7 @@ func (w *mdWorker) run(bi int, beh []map[string]any, delay time.Duration) (o mdO
 				o.nontrivial = true
 			}
 			o.counts["tick_"+res]++
+			tickJudge = res != "error" && (!opts.Shared || tickUniform) && r.top == vh.Int(st["top"])
 		case "Unsubscribe":
 			s := vh.Str(step["s"])
 			c := r.conns[s]
@@ -673,6 +675,23 @@ func (w *mdWorker) run(bi int, beh []map[string]any, delay time.Duration) (o mdO
 		if !judge(st) {
 			return
 		}
+		// a detected position loss ends the affected positioned subscriptions: once the ends a tick spawned had their
+		// time, a positioned subscriber that is still live holds the stream top. (With the shared check only the first
+		// caller's position is compared: judged when every live positioned subscriber held the same position.)
+		if tickJudge {
+			tickJudge = false
+			for _, s := range subs {
+				if !positioned(s) {
+					continue
+				}
+				if live, pos := mdLiveAt(r.project(s)); live && pos != uint64(r.top) {
+					o.vs = append(o.vs, verdict{"position-loss-not-ended", fmt.Sprintf("after a periodic position check positioned subscriber %s is still subscribed at offset %d while the stream top is %d (frames %s)", s, pos, r.top, vh.J(r.project(s)))})
+				}
+			}
+			if len(o.vs) > 0 {
+				return
+			}
+		}
 		if !ok {
 			o.mismatch = fmt.Sprintf("step %d %s: %s", si, act, what)
 			return
@@ -687,22 +706,6 @@ func (w *mdWorker) run(bi int, beh []map[string]any, delay time.Duration) (o mdO
 			}
 			if !busy && int(mi.Latest) != vh.Int(st["latest"]) {
 				o.mismatch = fmt.Sprintf("step %d %s: latestPublication offset %d, model %d", si, act, mi.Latest, vh.Int(st["latest"]))
-				return
-			}
-		}
-		// a detected position loss ends the affected positioned subscriptions: after a tick that compared positions a
-		// positioned subscriber that is still live holds the stream top. (With the shared check only the first caller's
-		// position is compared: judged when every live positioned subscriber held the same position before the tick.)
-		if act == "Tick" && vh.Str(step["res"]) != "error" && (!opts.Shared || tickUniform) {
-			for _, s := range subs {
-				if !positioned(s) {
-					continue
-				}
-				if live, pos := mdLiveAt(r.project(s)); live && pos != uint64(r.top) {
-					o.vs = append(o.vs, verdict{"position-loss-not-ended", fmt.Sprintf("after a periodic position check positioned subscriber %s is still subscribed at offset %d while the stream top is %d (frames %s)", s, pos, r.top, vh.J(r.project(s)))})
-				}
-			}
-			if len(o.vs) > 0 {
 				return
 			}
 		}
